@@ -9,9 +9,18 @@
 (*  GenMode = "cache"   the request table with the uncached Preimage (VFR)  *)
 (*                      and every order of completed requests of the cache  *)
 (*                      machine (h is part of the state: no VIEW): VFB lines*)
+(*  GenMode = "burst"   the request table (VFR) for the sampled inputs CIdx  *)
+(*                      of a transaction with many inputs, and the burst    *)
+(*                      scenarios (VFS): a cache warm-up prefix (none, or   *)
+(*                      ONE completed request of a hash-type class - the    *)
+(*                      classes fill different subsets of the cache slots)  *)
+(*                      followed by a concurrent burst whose goroutines     *)
+(*                      cycle through the request kinds of `burst`; `cold`  *)
+(*                      = the slots the burst has to fill concurrently      *)
 EXTENDS SigHash, Json
 
-CONSTANTS GenMode, VecFile
+CONSTANTS GenMode, VecFile,
+          BurstLen     \* burst scenarios: 1..BurstLen request kinds per burst
 
 VARIABLE h           \* cache mode: sequence of completed requests [t, r]
 
@@ -21,7 +30,7 @@ Vecs == IF GenMode = "vectors" THEN JsonDeserialize(VecFile) ELSE <<>>
 VecCase(v) == LET q == Q(v.mode, v.nin, v.nout, v.idx, <<v.lo, v.hi>>, v.toks, FALSE, "func", FALSE) IN
               [q |-> q, code |-> q.script, feed |-> TRUE, csp |-> -1, pre |-> PreimageCode(q, q.script), vec |-> v.id]
 
-ASSUME GenMode = "cache" => \A r \in Requests : PrintT(<<"VFR", ToJson([req |-> r, pre |-> Fresh(r)])>>)
+ASSUME GenMode \in {"cache", "burst"} => \A r \in Requests : PrintT(<<"VFR", ToJson([req |-> r, pre |-> Fresh(r)])>>)
 
 GCases == PNext /\ PrintT(<<"VFT", ToJson(c')>>) /\ UNCHANGED h
 GVecs  == /\ c = NoCase /\ \E i \in DOMAIN Vecs : c' = VecCase(Vecs[i])
@@ -30,9 +39,22 @@ GCache == /\ CNext
           /\ h' = IF ndone' > ndone THEN Append(h, [t |-> last'.t, r |-> last'.req]) ELSE h
           /\ (ndone' > ndone => PrintT(<<"VFB", ToJson([steps |-> h'])>>))
 
+\* ---- burst scenarios
+Kinds    == {[mode |-> m, lo |-> l] : m \in CModes, l \in CHT} \ {[mode |-> m, lo |-> 0] : m \in {"legacy", "bip143"}}
+NoKind   == [mode |-> "none", lo |-> 0]
+KNeed(k) == IF k = NoKind THEN {} ELSE NeedSlots([mode |-> k.mode, idx |-> 0, lo |-> k.lo])
+Scenarios == {[warm |-> w, burst |-> b] : w \in Kinds \cup {NoKind}, b \in UNION {[1..n -> Kinds] : n \in 1..BurstLen}}
+GBurst == /\ h = <<>>
+          /\ \E s \in Scenarios :
+                /\ h' = <<s>>
+                /\ PrintT(<<"VFS", ToJson([warm |-> s.warm, burst |-> s.burst,
+                                            cold |-> (UNION {KNeed(s.burst[i]) : i \in DOMAIN s.burst}) \ KNeed(s.warm)])>>)
+          /\ UNCHANGED vars
+
 GInit == Init /\ h = <<>>
 GNext == \/ GenMode = "cases" /\ GCases
          \/ GenMode = "vectors" /\ GVecs
          \/ GenMode = "cache" /\ GCache
+         \/ GenMode \in {"burst", "scenarios"} /\ GBurst      \* "scenarios": without the request table
 GSpec == GInit /\ [][GNext]_gvars
 =============================================================================
